@@ -130,6 +130,8 @@ func runC05(c *Ctx) {
 	}
 	c.AtLeast("R1", "callers of prune", pruneCalls, 2)
 	retentionScansUnfiltered(c, "R3")
+	treeListingsCoverWholeTree(c, "R5")
+	checkoutRetentionOnlyForce(c, "R3")
 	// removals inside pruneDeleteFiles target ObjectPath(oid) of the listed oids
 	for _, ci := range CallsIn(del, "os.Remove", "os.RemoveAll") {
 		okp := false
